@@ -121,6 +121,17 @@ def _(value: Flag):
     ) or f"{name}({value.value!r})"
 
 
+@customize_repr
+def _(value: complex):
+    # repr() encloses complex numbers which have a real part in parentheses,
+    # but these parentheses are not part of the ast node of the value
+    # and would be added again with every update
+    result = real_repr(value)
+    if result.startswith("(") and result.endswith(")"):
+        result = result[1:-1]
+    return result
+
+
 def sort_set_values(set_values):
     is_sorted = False
     try:
